@@ -267,6 +267,17 @@ def main(pid, fn, level="model_checking"):
     seed = int(os.environ.get("VERIF_SEED", "0") or 0)
     ctx = Ctx(pid, a.tier, seed, level)
     ctx.replay_path = a.replay
+    if a.replay:
+        # a replay file records the failing configuration / event / history and the schedule of one violation; the drivers are
+        # deterministic in (tier, seed), so re-running the check with the recorded tier and seed meets the same input again
+        try:
+            rec = json.load(open(a.replay))
+            print("replaying %s (tier %s, seed %s): %s" % (a.replay, rec.get("tier"), rec.get("seed"), _short(rec.get("detail"), 400)))
+            ctx = Ctx(pid, rec.get("tier") or a.tier, int(rec.get("seed") or 0), level)
+            ctx.replay_path = a.replay
+        except Exception as ex:
+            print("cannot read replay file %s: %s" % (a.replay, ex))
+            return 2
     try:
         fn(ctx)
         return ctx.finish()
